@@ -257,6 +257,8 @@ class RtAnalysis:
                 hi = const_of(body, term['args'][2])
                 if lo is not None and hi is not None and lo <= hi:
                     return True
+                if clamp_guarded(body, term):
+                    return True
         # chunks/chunks_mut(n) panics iff n == 0: literal non-zero size
         if sink.startswith('core::slice::<impl [T]>::chunks') and tinst['path'].startswith('core::slice::<impl [T]>::chunks') and term['k'] == 'call':
             n = const_of(body, term['args'][1])
@@ -572,4 +574,30 @@ def dead_end(body, s, depth=4):
             s = t['t']
             continue
         return False
+    return False
+
+
+def clamp_guarded(body, term):
+    """x.clamp(a, b) on a path where `a < b` (or `a <= b`) was established by a dominating branch on the same operands."""
+    from .paths import describe
+    call_bb = None
+    for i, blk in enumerate(body.blocks):
+        if blk['term'] is term:
+            call_bb = i
+    if call_bb is None:
+        return False
+    a = describe(body, term['args'][1], depth=4, at=call_bb)
+    b = describe(body, term['args'][2], depth=4, at=call_bb)
+    for g in range(body.n):
+        t = body.blocks[g]['term']
+        if t['k'] != 'switch' or g == call_bb or not body.dominates(g, call_bb):
+            continue
+        d = describe(body, t['op'], depth=5, at=g)
+        want = ('Lt(%s, %s)' % (a, b), 'Le(%s, %s)' % (a, b), 'Gt(%s, %s)' % (b, a), 'Ge(%s, %s)' % (b, a))
+        if d in want:
+            # the call must lie on the true edge only
+            true_t = t['otherwise']
+            false_ts = [x for _, x in t['targets']]
+            if body.dominates(true_t, call_bb) and not any(call_bb in body.reachable([f], removed=[true_t]) for f in false_ts):
+                return True
     return False
